@@ -395,6 +395,20 @@ def check_C20(ctx):
             dag = accessor_dag(ctx, name)
             dags[name] = dag
             bv = BitVec(pdb).bv(dag)
+            exact = all(bv[i] == (1 if i == bit else ("b", "w", i)) for i in range(32))
+            dom_bad = None
+            if not exact:
+                # not the identity-plus-one-bit formula on every 32-bit word: the property speaks of the 52 cards with
+                # any combination of marks — decide on that whole space instead (a version that, say, leaves BLANK
+                # alone is the same function there)
+                for w_ in [cw | (combo << 29) for cw in cards.values() for combo in range(8)]:
+                    got_ = cval(ctx.fold(dag, {"w": w_}))
+                    if got_ != (w_ | (1 << bit)):
+                        dom_bad = (w_, got_)
+                        break
+                rep.ob("C20.flag-bits." + name, "52 cards x 8 marks", dom_bad is None,
+                       "%s(%#x) = %s, must be the word with bit %d set and nothing else changed" % (name, dom_bad[0] if dom_bad else 0, ("%#x" % dom_bad[1]) if dom_bad and dom_bad[1] is not None else "?", bit), pdb.where(self_u32(ctx, name)[0]))
+                continue
             for i in range(32):
                 exp = 1 if i == bit else ("b", "w", i)
                 rep.ob("C20.flag-bits." + name, "bit %d" % i, bv[i] == exp,
